@@ -12,6 +12,15 @@ TRUSTED_BASE = [
 ]
 
 CHECKS = {
+    "C12": {
+        "module": "Vanguard.Props.C12",
+        "namespace": "Vanguard.C12",
+        "streams": ["timeout"],
+        "partial": "REST X-Server-Timeout legs (float64 arithmetic) are outside the Lean model",
+        "assumptions": [
+            "strconv.ParseInt/FormatInt are modelled explicitly (Model/Decimal.lean) and cross-checked by the parse_int64/format_int ops",
+        ],
+    },
     "C04": {
         "module": "Vanguard.Props.C04",
         "namespace": "Vanguard.C04",
